@@ -19,38 +19,38 @@ package ttheader
 
 //@ func Bytes2Uint8
 //@   arith int
-//@   props C03, C10
+//@   props C03, C06, C10
 //@   requires 0 <= off
 //@   ensures len(bytes) - off < 1 ==> ret1 == io.EOF && ret0 == 0
 //@   ensures len(bytes) - off >= 1 ==> ret1 == nil && ret0 == bytes[off]
 
 //@ func Bytes2Uint16
 //@   arith int
-//@   props C03, C10
+//@   props C03, C06, C10
 //@   requires 0 <= off
 //@   ensures len(bytes) - off < 2 ==> ret1 == io.EOF && ret0 == 0
 //@   ensures len(bytes) - off >= 2 ==> ret1 == nil && ret0 == vs.BE16(bytes, off)
 
 //@ func ReadString2BLen
 //@   arith int
-//@   props C03, C10
+//@   props C03, C06, C10
 //@   requires 0 <= off && off <= len(bytes)
 //@   let R = vs.Str2BLen(bytes[off:])
 //@   ensures R < 0 ==> ret2 == io.EOF && ret1 == 0 && len(ret0) == 0
 //@   ensures R >= 0 ==> ret2 == nil && ret1 == R && len(ret0) == R - 2 && eqbytes(ret0, 0, bytes, off + 2, R - 2) && off + R <= len(bytes)
 
 //@ func IsTTHeader
-//@   props C03, C10
+//@   props C03, C06, C10
 //@   requires len(flagBuf) >= 8
 //@   ensures ret == (vs.BE32(flagBuf, 4) & 0xffff0000 == 0x10000000)
 
 //@ func checkProtocolID
-//@   props C03, C10
+//@   props C03, C06, C10
 //@   ensures isnil(ret) == vs.ProtoOK(protoID)
 
 //@ func readIntKVInfo
 //@   arith int
-//@   props C03, C10
+//@   props C03, C06, C10
 //@   requires region(idx) != 0 && 0 <= *idx && *idx <= len(buf) && !isnil(info)
 //@   let i0 = *idx
 //@   let n = len(buf) - i0 >= 2 ? int(vs.BE16(buf, i0)) : 0
@@ -64,7 +64,7 @@ package ttheader
 
 //@ func readStrKVInfo
 //@   arith int
-//@   props C03, C10
+//@   props C03, C06, C10
 //@   requires region(idx) != 0 && 0 <= *idx && *idx <= len(buf) && !isnil(info)
 //@   let i0 = *idx
 //@   let n = len(buf) - i0 >= 2 ? int(vs.BE16(buf, i0)) : 0
@@ -78,7 +78,7 @@ package ttheader
 
 //@ func readACLToken
 //@   arith int
-//@   props C03, C10
+//@   props C03, C06, C10
 //@   requires region(idx) != 0 && 0 <= *idx && *idx <= len(buf) && !isnil(info)
 //@   let i0 = *idx
 //@   let R = vs.Str2BLen(buf[i0:])
@@ -88,7 +88,7 @@ package ttheader
 
 //@ func readKVInfo
 //@   arith int
-//@   props C03, C10
+//@   props C03, C06, C10
 //@   requires 0 <= idx && idx <= len(buf)
 //@   ensures (err == nil) == (vs.InfoOK(buf[idx:]) >= 0)
 //@   loop 1 invariant 0 <= idx && idx <= len(buf) && err == nil
